@@ -105,10 +105,17 @@ func basePrep() []Prep {
 	d("/sb/s0/s1")
 	f("/sb/s0/s1/victim", 903)
 	d("/sb/s0/s1/x")
+	f("/sb/s0/s1/x/victim", 915)
+	d("/sb/s0/s1/t")
+	f("/sb/s0/s1/t/victim", 916)
 	d("/sb/s0/s1/s2")
 	f("/sb/s0/s1/s2/victim", 904)
 	d("/sb/s0/s1/s2/x")
 	f("/sb/s0/s1/s2/x/victim", 905)
+	d("/sb/s0/s1/s2/x/t")
+	f("/sb/s0/s1/s2/x/t/victim", 917)
+	d("/sb/s0/s1/s2/t")
+	f("/sb/s0/s1/s2/t/victim", 918)
 	d(s3Dir)
 	f(s3Dir+"/victim", 906)
 	f(s3Dir+"/a", 907)
@@ -588,6 +595,9 @@ func genTarget(r *common.Rand, dirPathRel string, names []string) string {
 	return relName(r, nil)
 }
 
+// directories that exist in the decoy area (what a name right below an escaping link can hit)
+var deepSubs = []string{"x", "t", "x/t", "cwd", "s3", "wd"}
+
 func genUnpack(r *common.Rand, title string, earlier *[]string, tag *int) Push {
 	p := Push{Kind: "U", Title: title}
 	prefix := title
@@ -597,6 +607,7 @@ func genUnpack(r *common.Rand, title string, earlier *[]string, tag *int) Push {
 	}
 	n := 1 + r.Intn(6)
 	var names []string // entry names relative to wd (lexically)
+	var links []string // names (relative to the unpack directory) of symlink entries so far
 	for i := 0; i < n; i++ {
 		var rel string
 		if len(names) > 0 && r.Chance(1, 2) {
@@ -612,6 +623,8 @@ func genUnpack(r *common.Rand, title string, earlier *[]string, tag *int) Push {
 			if rel == "" {
 				rel = "."
 			}
+		} else if len(links) > 0 && r.Chance(1, 3) {
+			rel = common.Pick(r, links) + "/" + common.Pick(r, deepSubs) + "/" + common.Pick(r, []string{"victim", "k", "a"})
 		} else {
 			rel = relName(r, nil)
 		}
@@ -643,9 +656,13 @@ func genUnpack(r *common.Rand, title string, earlier *[]string, tag *int) Push {
 		case k < 8:
 			e.Kind = "s"
 			e.Target = genTarget(r, dirRel, names)
+			links = append(links, rel)
 		case k < 9:
 			e.Kind = "h"
 			e.Target = genTarget(r, dirRel, names)
+			if len(links) > 0 && r.Chance(1, 2) {
+				e.Target = common.Pick(r, links) + "/" + common.Pick(r, deepSubs) + "/victim"
+			}
 		default:
 			e.Kind = "o"
 		}
@@ -717,6 +734,9 @@ func genRandom(r *common.Rand) Case {
 			c.Pushes = append(c.Pushes, genUnpack(r, title, &earlier, &tag))
 		} else {
 			tag++
+			if len(earlier) > 0 && r.Chance(1, 4) {
+				title = common.Pick(r, earlier) + "/" + common.Pick(r, deepSubs) + "/" + common.Pick(r, []string{"victim", "k"})
+			}
 			c.Pushes = append(c.Pushes, Push{Kind: "B", Title: title, Tag: tag})
 			if !strings.HasPrefix(title, "/") {
 				earlier = append(earlier, path.Clean(title))
@@ -731,7 +751,7 @@ func genTemplate(r *common.Rand) Case {
 	c := Case{Prep: basePrep(), Preserve: r.Chance(1, 4)}
 	t := common.Pick(r, []string{"t", "a", "k", "t/b"})
 	fin := common.Pick(r, []string{"victim", "a", "x/victim", "k"})
-	switch k := r.Intn(10); k {
+	switch k := r.Intn(13); k {
 	case 0: // raw link target goes through an earlier link and climbs
 		c.Origin = "tpl-raw-target"
 		d := 1 + r.Intn(3)
@@ -807,6 +827,41 @@ func genTemplate(r *common.Rand) Case {
 		default:
 			c.Pushes = []Push{{Kind: "U", Title: "u", Entries: []Entry{{Kind: "r", Name: "u/" + fin, Tag: 6}}},
 				{Kind: "U", Title: "v", Entries: []Entry{{Kind: "h", Name: "v/h", Target: "../u/victim"}, {Kind: "r", Name: "v/h", Tag: 7}}}}
+		}
+	case 9, 10, 11: // names two or more levels below a planted link whose raw target leaves the tree:
+		// the directory right below the link exists outside (decoy), so an Lstat of it succeeds
+		c.Origin = "tpl-deep-below-link"
+		climb := 2 + r.Intn(2) // from <wd>/t: 2 -> s3, 3 -> s2
+		sub := common.Pick(r, []string{"x", "t", "x/t"})
+		leaf := common.Pick(r, []string{"victim", "k", "k", "new/k"})
+		es := []Entry{{Kind: "d", Name: t + "/b/b/b"},
+			{Kind: "s", Name: t + "/b/b/b/s", Target: "../../.."},
+			{Kind: "s", Name: t + "/l", Target: "b/b/b/s/" + strings.TrimSuffix(ups(climb+strings.Count(t, "/")), "/")}}
+		deep := t + "/l/" + sub + "/" + leaf
+		switch r.Intn(6) {
+		case 0: // overwrite an existing file / create a new one
+			es = append(es, Entry{Kind: "r", Name: deep, Tag: 5, Mode: 0o600})
+		case 1: // hard link to an outside file, then truncate it through the new name
+			es = append(es, Entry{Kind: "h", Name: t + "/h", Target: "l/" + sub + "/victim"},
+				Entry{Kind: "r", Name: t + "/h", Tag: 6})
+		case 2: // new hard link created outside
+			es = append(es, Entry{Kind: "r", Name: t + "/f", Tag: 7}, Entry{Kind: "h", Name: t + "/l/" + sub + "/k", Target: wdDir + "/" + t + "/f"})
+		case 3: // directory / link created outside
+			es = append(es, Entry{Kind: common.Pick(r, []string{"d", "s"}), Name: t + "/l/" + sub + "/k", Target: "victim", Mode: 0o700})
+		case 4: // in a second archive, and as a named blob
+			c.Pushes = append(c.Pushes, Push{Kind: "U", Title: t, Entries: es})
+			es = nil
+			c.Pushes = append(c.Pushes, Push{Kind: "U", Title: t + "/z", Entries: []Entry{{Kind: "h", Name: t + "/z/h", Target: "../l/" + sub + "/victim"}, {Kind: "r", Name: t + "/z/h", Tag: 8}}},
+				Push{Kind: "B", Title: deep, Tag: 9})
+		default:
+			c.Pushes = append(c.Pushes, Push{Kind: "U", Title: t, Entries: es})
+			es = nil
+			c.Pushes = append(c.Pushes, Push{Kind: "B", Title: deep, Tag: 9},
+				Push{Kind: "U", Title: t + "/l/" + sub, Entries: []Entry{{Kind: "r", Name: t + "/l/" + sub + "/victim", Tag: 10}}})
+		}
+		if es != nil {
+			c.Preserve = r.Bool()
+			c.Pushes = append(c.Pushes, Push{Kind: "U", Title: t, Entries: es})
 		}
 	default: // write through a final link created by the store (stays inside when the link is sound)
 		c.Origin = "tpl-final-link"
